@@ -109,12 +109,20 @@ PROPS = {
         "not_decided": ["'rejected once the timeout has elapsed' is proved as: Ok implies the equation for the derived challenge, and the elapsed-time comparison is part of the verified body; the wall clock itself is an arbitrary value"],
     },
     "C11": {
-        "units": [leaf("assertion failed: o"), gen("C11")],
+        "units": [leaf("assertion failed: o"), gen("C11", props=["lib_payload.rs", "C11.rs"])],
         "trusted_base": TB_ALGEBRA + ["H-XOF: SHAKE128 is an uninterpreted function of (absorbed input, output length)", "L-ZIGZAG: LEB128 peek/try_from/to_vec facts (prefix, round trip, length <= 19)", "A-RNG (see C20)",
                                       "byte_xor: contract assumed in the Verus unit (zip iterator), checked by Kani only at N in {0,4} (BOUNDED)"],
         "hypotheses": [X_NONID, "X-INJ / X-DSEP on the hash input enc(U)||V for altered U, V or scheme label", "X-RO: a different secret key unmasks with an unrelated keystream"],
         "bounded_parts": ["byte_xor element-wise contract: Kani at N in {0, 4}"],
         "not_decided": ["'decryption under a different secret key never returns the original message' (statistical statement about SHAKE128 output)"],
+    },
+    "C13": {
+        "units": [leaf("assertion failed: o"), gen("C13", props=["lib_payload.rs", "C13.rs"])],
+        "trusted_base": TB_ALGEBRA + ["H-XOF / H-HASH: SHAKE128 and SHA-256 are uninterpreted functions of their input", "L-ZIGZAG (see C11)", "A-RNG (see C20)", "Gt is determined by its discrete log; gt_enc is injective",
+                                      "E3d: a.iter().copied().chain(b.iter().copied()).collect() is modelled as concatenation", "byte_xor: see C11 (Kani, bounded)"],
+        "hypotheses": [X_NONID, "X-RO for 'wrong id / wrong key / tampering yields nothing': another pairing value or another masked byte gives an unrelated alpha and check scalar"],
+        "bounded_parts": ["byte_xor element-wise contract: Kani at N in {0, 4}"],
+        "not_decided": ["threshold-recombined signatures are equal to the whole-key signature as group elements (C08); the recombination itself is L-VSSS"],
     },
     "C15": {
         "units": [LEAF_FUNCTIONAL_BOTH, gen("C15", props=["lib_bytes.rs", "C15.rs"])],
